@@ -300,7 +300,7 @@ PROPS["C17"] = {
 def corpus_grammars(run):
     import glob, os
     gs = sorted(glob.glob(os.path.join(run.repo, "example", "*", "*.bnf")) + glob.glob(os.path.join(run.repo, "internal", "test", "*", "*.bnf")))
-    gs += sorted(glob.glob(os.path.join(os.path.dirname(os.path.dirname(__file__)), "carriers", "*.bnf")))
+    gs += sorted(g for g in glob.glob(os.path.join(os.path.dirname(os.path.dirname(__file__)), "carriers", "*.bnf")) if not g.endswith("wide.bnf"))
     gs += sorted(g for g in glob.glob(os.path.join(os.path.dirname(os.path.dirname(__file__)), "corpus", "*.bnf")) if "backquote" not in g and "reserved_" not in g)
     return gs
 
@@ -468,11 +468,14 @@ def c12_erasure(run):
 def c12_zip_tables(run):
     """GROUND: the tables the run-time sees are cell-for-cell equal between the plain and the -zip expansion"""
     import common as C, json, os, shutil
+    import expand
     viol, cells, samples = [], 0, []
-    for plain, z in (("recover", "recover_zip"), ("conflict", "conflict_zip")):
+    carriers = dict(run.carriers)
+    carriers.update(expand.expand(run, ["wide", "wide_zip"]))  # more than 256 terminals: columns beyond one byte
+    for plain, z in (("recover", "recover_zip"), ("conflict", "conflict_zip"), ("wide", "wide_zip")):
         dumps = {}
         for c in (plain, z):
-            d = run.carriers[c]
+            d = carriers[c]
             shutil.copy(os.path.join(C.VERIF, "harness/tables/verif_tables_test.go"), os.path.join(d, "parser", "verif_tables_test.go"))
             out = os.path.join(run.work, "tables-%s.json" % c)
             rc, o = C.sh(["go", "test", "-vet=off", "-count=1", "-run", "TestVerifDumpTables", "./parser"], cwd=d, env=dict(C.GOENV, VERIF_OUT=out), timeout=600)
@@ -762,6 +765,105 @@ def c09_matrix(run):
             "exhaustive_over_configurations": run.tier == "thorough", "violations": ded, "samples": samples}
 
 
+def c09_spellings(run):
+    """bounded: spellings of the output directory (trailing slash, ./, absolute) and of -p: status 0 must still mean compilable packages"""
+    import expand, os, shutil, common as C
+    gocc = expand.build_gocc(run)
+    base = os.path.dirname(os.path.dirname(__file__))
+    g = os.path.join(base, "carriers", "conflict.bnf")
+    viol, cases, samples = [], 0, []
+    jobs = []
+    for fl in (["-a"], ["-a", "-zip"]):
+        for o in (None, "sub/", "./sub", "./sub/dir/", "ABS/out", "ABS/out/"):
+            for pv in (None, "P", "P/"):
+                jobs.append((fl, o, pv))
+    if run.tier == "quick":
+        jobs = [j for j in jobs if j[0] == ["-a"]]
+
+    def one(job):
+        fl, o, pv = job
+        d = os.path.join(run.work, "spell", "c%d" % abs(hash((tuple(fl), o, pv))))
+        os.makedirs(d, exist_ok=True)
+        open(os.path.join(d, "go.mod"), "w").write("module gen\n\ngo 1.24\n")
+        shutil.copy(g, os.path.join(d, "g.bnf"))
+        args = list(fl)
+        rel = "."
+        if o is not None:
+            oo = o.replace("ABS", d + "/abs")
+            args += ["-o", oo]
+            rel = os.path.relpath(os.path.normpath(oo if os.path.isabs(oo) else os.path.join(d, oo)), d)
+        if pv is not None:
+            pkg = "gen" if rel == "." else "gen/" + rel
+            args += ["-p", pv.replace("P", pkg)]
+        rc, out = C.sh([gocc] + args + ["g.bnf"], cwd=d, timeout=60)
+        msg = None
+        if rc != 0:
+            msg = ("status", "unexpected status %d: %s" % (rc, out[-300:]))
+        else:
+            rc2, out2 = C.sh(["go", "build", "./..."], cwd=d, timeout=300)
+            if rc2 != 0:
+                msg = ("compile", "status 0 but the packages do not compile: %s" % out2[-400:])
+            elif not os.path.exists(os.path.join(d, rel, "errors", "errors.go")):
+                msg = ("missing", "status 0 but errors/errors.go is not under the output directory")
+        shutil.rmtree(d, ignore_errors=True)
+        return job, msg
+
+    from concurrent.futures import ThreadPoolExecutor
+    with ThreadPoolExecutor(max_workers=8) as ex:
+        for (fl, o, pv), msg in ex.map(one, jobs):
+            cases += 1
+            if msg and len(viol) < 8:
+                viol.append({"id": "C09 spelling %s: flags=%s -o %s -p %s" % (msg[0], " ".join(fl), o, pv), "what": msg[1], "input": {"grammar": g, "flags": fl, "o": o, "p": pv}})
+            if len(samples) < 6 and cases % 7 == 1:
+                samples.append({"flags": fl, "o": o, "p": pv})
+    return {"name": "SPELLINGS of -o / -p (trailing slash, ./, absolute): status 0 means compilable packages (bounded)", "cases": cases, "evaluations": cases, "violations": viol, "samples": samples}
+
+
+def c09_truncations(run):
+    """bounded: gocc terminates (any status) on every prefix of the corpus grammars cut at a byte offset, and on the
+    ill-formed corpus; quick: every 3rd offset (rotating with the seed) of two grammars"""
+    import expand, os, glob, shutil, common as C
+    gocc = expand.build_gocc(run)
+    base = os.path.dirname(os.path.dirname(__file__))
+    files = [os.path.join(base, "corpus", "hostile.bnf"), os.path.join(base, "carriers", "recover.bnf")]
+    if run.tier == "thorough":
+        files += [os.path.join(base, "carriers", "conflict.bnf"), os.path.join(base, "corpus", "lex_nonascii.bnf")]
+    jobs = []
+    for f in files:
+        data = open(f, "rb").read()
+        step = 3 if run.tier == "quick" else 1
+        for cut in range(run.seed % step, len(data), step):
+            jobs.append((f, cut, data[:cut]))
+    for f in sorted(glob.glob(os.path.join(base, "corpus", "illformed", "*.bnf"))):
+        jobs.append((f, -1, open(f, "rb").read()))
+    viol, cases = [], 0
+    root = os.path.join(run.work, "trunc")
+    os.makedirs(root, exist_ok=True)
+    open(os.path.join(root, "go.mod"), "w").write("module gen\n\ngo 1.24\n")
+
+    def one(job):
+        f, cut, data = job
+        d = os.path.join(root, "%s-%d" % (os.path.basename(f), cut))
+        os.makedirs(d, exist_ok=True)
+        open(os.path.join(d, "g.bnf"), "wb").write(data)
+        try:
+            rc, out = C.sh([gocc, "-a", "g.bnf"], cwd=d, timeout=30)
+            res = None
+        except Exception as ex:
+            res = "gocc did not terminate within 30 s on the first %d bytes of %s" % (cut, os.path.basename(f))
+        shutil.rmtree(d, ignore_errors=True)
+        return job, res
+
+    from concurrent.futures import ThreadPoolExecutor
+    with ThreadPoolExecutor(max_workers=16) as ex:
+        for (f, cut, data), res in ex.map(one, jobs):
+            cases += 1
+            if res and len(viol) < 6:
+                viol.append({"id": "C09 truncation: gocc does not terminate on a prefix of %s" % os.path.basename(f), "what": res, "input": {"grammar_file": f, "cut": cut, "text": data.decode("utf-8", "replace")[-400:]}})
+    return {"name": "TRUNCATIONS gocc terminates on every cut of the corpus grammars and on the ill-formed corpus (bounded)", "cases": cases, "evaluations": cases, "violations": viol,
+            "samples": [{"grammar": os.path.basename(j[0]), "cut": j[1]} for j in jobs[:: max(1, len(jobs) // 5)]][:6]}
+
+
 def c09_termination(run):
     """bounded: every gocc run of the LEX and SYN scopes terminates (timeouts are failures of kind timeout)"""
     rl = sweep_tool(run, "lexref", "tools/lexref")
@@ -779,11 +881,12 @@ PROPS["C09"] = {
     "level": "other",
     "govc": [{"dir": "{repo}", "pkgs": ["./internal/lexer/items"], "contracts": [ITEMS_CONTRACTS], "prop": "C18"},
              {"dir": "{repo}", "pkgs": ["./internal/util/md"], "contracts": [STDLIB, MD_CONTRACTS], "prop": "C19"},
-             {"dir": "{repo}", "pkgs": ["./internal/util"], "contracts": [STDLIB, UTIL_CONTRACTS], "prop": "C20"}],
-    "extra": [c09_matrix, c09_termination],
+             {"dir": "{repo}", "pkgs": ["./internal/util"], "contracts": [STDLIB, UTIL_CONTRACTS], "prop": "C20"},
+             {"dir": "{repo}", "pkgs": ["./internal/frontend/scanner"], "contracts": [STDLIB, "{repo}/internal/frontend/scanner/zz_contracts_verif.go"], "prop": "C09"}],
+    "extra": [c09_matrix, c09_spellings, c09_termination, c09_truncations],
     "trusted_base": COMMON_TRUSTED + ["go build as the judge of 'the packages compile'"],
     "assumptions": [
-        "termination is proved (decreases clauses, unwinding assertions) only for the loops of the functions under contract listed in this evidence: AddRange, insertRange, loadMd, escapeCharVal (and, under C01/C07/C08, Scan, firstRecoveryState and the recovery skip loop); the fixed-point loops of the generator (FIRST sets, LR(1) closure/goto, lexer item closure) have no variant within reach: their termination is checked only on the bounded LEX and SYN scopes",
+        "termination is proved (decreases clauses, unwinding assertions) only for the loops of the functions under contract listed in this evidence: gocc's own scanner (every loop of internal/frontend/scanner has a variant; Scan, including its restart after a comment, consumes at least one character unless the input is exhausted), AddRange, insertRange, loadMd, escapeCharVal (and, under C01/C07/C08, the generated Scan, firstRecoveryState and the recovery skip loop); the LR loop of gocc's own Parse has no local variant (it depends on the tables); the fixed-point loops of the generator (FIRST sets, LR(1) closure/goto, lexer item closure) have no variant within reach: their termination is checked only on the bounded LEX and SYN scopes",
         "'status zero means every required file is written, import paths resolve, packages compile' is decided by running the built gocc over the flag/output-directory/-p configuration space on four grammars (quick: a deterministic sample of 24 configurations; thorough: all 384), not by a contract on main",
         "file header and action expressions are assumed to be valid Go, as the property states",
     ],
@@ -978,6 +1081,8 @@ def lexref_corpus(run):
 
 
 PROPS["C01"]["extra"].append(lexref_corpus)
+# C10: the parser's table columns are the token numbers - also beyond 255 and through the -zip encoding
+PROPS["C10"]["extra"].append(c12_zip_tables)
 
 
 FEPARSER_CONTRACTS = "{repo}/internal/frontend/parser/zz_contracts_verif.go"
@@ -1014,10 +1119,12 @@ def c10_numbering(run):
     viol, cases, samples = [], 0, []
     gs = corpus_grammars(run) + sorted(glob.glob(os.path.join(base, "corpus", "reserved_*.bnf")))
     for g in gs:
-        if "illformed" in g or g.endswith("t2.bnf"):
-            continue
-        d = os.path.join(run.work, "numbering", os.path.basename(g))
-        rc, o = run_gocc(run, gocc, g, ["-a"], d)
+      if "illformed" in g or g.endswith("t2.bnf"):
+        continue
+      seen_maps = {}
+      for fl in (["-a"], ["-a", "-v"]):
+        d = os.path.join(run.work, "numbering", os.path.basename(g) + "".join(fl))
+        rc, o = run_gocc(run, gocc, g, fl, d)
         if rc != 0:
             continue
         src = open(os.path.join(d, "token", "token.go"), encoding="utf-8").read()
@@ -1041,7 +1148,7 @@ def c10_numbering(run):
                 k, v = l[:-1].rsplit(":", 1)
                 ids[unq(k)] = int(v)
         cases += 1
-        name = os.path.basename(g)[:-4]
+        name = os.path.basename(g)[:-4] + (" (-v)" if "-v" in fl else "")
         problems = []
         if names[:2] != ["INVALID", "\u241a"]:
             problems.append("typeMap starts with %r" % names[:2])
@@ -1049,10 +1156,20 @@ def c10_numbering(run):
             problems.append("duplicate names in typeMap")
         if len(ids) != len(names) or any(ids.get(n) != i for i, n in enumerate(names)):
             problems.append("idMap is not the inverse of typeMap")
+        # the lexer's token numbers must be numbers of the token package
+        at = os.path.join(d, "lexer", "acttab.go")
+        if os.path.exists(at):
+            used = set(int(m) for m in re.findall(r"Accept:\s*(-?\d+)", open(at, encoding="utf-8").read()))
+            bad = sorted(u for u in used if u >= len(names))
+            if bad:
+                problems.append("the lexer emits token numbers %s beyond the token package's %d types" % (bad[:5], len(names)))
+        seen_maps["".join(fl)] = names
         if problems:
-            viol.append({"id": "C10 numbering: %s" % name, "what": "; ".join(problems), "input": {"grammar": g, "typeMap": names[:6]}})
+            viol.append({"id": "C10 numbering: %s" % name, "what": "; ".join(problems), "input": {"grammar": g, "flags": fl, "typeMap": names[:6]}})
         if len(samples) < 5:
             samples.append({"grammar": name, "terminals": len(names)})
+      if len(seen_maps) == 2 and seen_maps["-a"] != seen_maps["-a-v"]:
+        viol.append({"id": "C10 numbering: %s: -v changes the token numbering" % os.path.basename(g)[:-4], "what": "typeMap without -v %s..., with -v %s..." % (seen_maps["-a"][:12], seen_maps["-a-v"][:12]), "input": {"grammar": g, "flags": ["-a", "-v"]}})
     return {"name": "GROUND token numbering literals of the corpus grammars", "cases": cases, "evaluations": cases, "violations": viol, "samples": samples}
 
 
@@ -1149,3 +1266,66 @@ def replay_tool_case(run, rp, path):
 
 for _p in PROPS:
     PROPS[_p].setdefault("replayers", []).append(replay_tool_case)
+
+
+def c14_semantic_mutations(run):
+    """bounded, systematic over the corpus (the property's own quantifier): every single reference to a syntax production
+    or regular definition renamed to an undefined name, every single lexical definition duplicated; each mutant must be
+    rejected (non-zero status)"""
+    import expand, os, shutil, respell, common as C
+    from concurrent.futures import ThreadPoolExecutor
+    gocc = expand.build_gocc(run)
+    files = [g for g in corpus_grammars(run) if "illformed" not in g and not g.endswith("t2.bnf")]
+    dump = respell.dump_tokens(run, files)
+    jobs = []
+    for g in files:
+        info = dump.get(g)
+        if not info or info.get("errors"):
+            continue
+        src = open(g, "rb").read()
+        toks = info["tokens"]
+        # a gocc grammar whose base run is not accepted is no base for mutation
+        for i, t in enumerate(toks):
+            lit = t["lit"].encode()
+            o = t["offset"]
+            if src[o:o + len(lit)] != lit:
+                continue
+            nxt = toks[i + 1]["lit"] if i + 1 < len(toks) else ""
+            if t["type"] in ("prodId", "regDefId") and nxt != ":":
+                if t["type"] == "prodId" and lit in (b"INVALID",):
+                    continue
+                new = b"Zzundefined" if t["type"] == "prodId" else b"_zzundefined"
+                jobs.append((g, "reference %s at offset %d renamed to the undefined %s" % (t["lit"], o, new.decode()), src[:o] + new + src[o + len(lit):]))
+            if t["type"] in ("tokId", "regDefId", "ignoredTokId") and nxt == ":":
+                # the definition runs up to the next ';' token
+                j = i + 1
+                while j < len(toks) and toks[j]["lit"] != ";":
+                    j += 1
+                if j < len(toks):
+                    end = toks[j]["offset"] + 1
+                    jobs.append((g, "definition of %s at offset %d duplicated" % (t["lit"], o), src[:end] + b"\n" + src[o:end] + src[end:]))
+    if run.tier == "quick":
+        jobs = [j for k, j in enumerate(jobs) if k % 3 == run.seed % 3]
+    viol, cases, samples = [], 0, []
+
+    def one(job):
+        g, desc, data = job
+        d = os.path.join(run.work, "semmut", "m%d" % abs(hash((g, desc))))
+        os.makedirs(d, exist_ok=True)
+        p = os.path.join(d, "mutant.bnf")
+        open(p, "wb").write(data)
+        rc, o = run_gocc(run, gocc, p, ["-a"], d, timeout=60)
+        shutil.rmtree(d, ignore_errors=True)
+        return job, rc, o
+
+    with ThreadPoolExecutor(max_workers=16) as ex:
+        for (g, desc, data), rc, o in ex.map(one, jobs):
+            cases += 1
+            if rc == 0 and len(viol) < 10:
+                viol.append({"id": "ill-formed mutant accepted: %s: %s" % (os.path.basename(g), desc), "what": "gocc exits with status 0", "input": {"grammar": data.decode("utf-8", "replace"), "base": g, "mutation": desc}})
+            if len(samples) < 6 and cases % 41 == 1:
+                samples.append({"grammar": os.path.basename(g), "mutation": desc, "status": rc})
+    return {"name": "SEMMUT every reference renamed to an undefined name, every lexical definition duplicated: all rejected (bounded corpus)", "cases": cases, "evaluations": cases, "violations": viol, "samples": samples}
+
+
+PROPS["C14"]["extra"].append(c14_semantic_mutations)
